@@ -9,7 +9,7 @@ import sys
 ROOT = os.path.join(os.path.dirname(os.path.dirname(os.path.abspath(__file__))), "coq", "theories")
 
 
-STANDALONE = {"AckProofs", "LocksProofs", "LedgerProofs", "LedgerUpdProofs", "LedgerRunProofs", "PoolProofs", "WindowProofs", "MicroProofs", "MicroStats", "MicroBound", "MicroBal", "MicroAll", "MicroProv", "MicroLedger", "MicroFifo", "MicroAck", "MicroPut", "MicroCharged", "MicroFlow", "MicroHeld", "MicroBoundAll", "PrecondProofs"}
+STANDALONE = {"AckProofs", "LocksProofs", "LedgerProofs", "LedgerUpdProofs", "LedgerRunProofs", "PoolProofs", "PoolRunProofs", "WindowProofs", "MicroProofs", "MicroStats", "MicroBound", "MicroBal", "MicroAll", "MicroProv", "MicroLedger", "MicroFifo", "MicroAck", "MicroPut", "MicroCharged", "MicroFlow", "MicroHeld", "MicroBoundAll", "PrecondProofs"}
 
 
 def statements(modname):
@@ -30,6 +30,7 @@ def emit(pid, title, imports, items, examples=""):
               "From CacheD Require Import Base Ledger LedgerUpd LedgerRun." if "LedgerRunProofs" in imports else
               "From CacheD Require Import Base Ledger LedgerUpd." if "LedgerUpdProofs" in imports else
               "From CacheD Require Import Base Ledger." if "LedgerProofs" in imports else
+              "From CacheD Require Import Base PoolProto PoolRun." if "PoolRunProofs" in imports else
               "From CacheD Require Import Base PoolProto." if "PoolProofs" in imports else
               "From CacheD Require Import Base Sketch Model Window Micro.\nFrom CacheD.proofs Require Import Defs ApiProofs HistoryProofs StatsProofs." if "MicroProofs" in imports else
               "From CacheD Require Import Base Sketch Model Window.\nFrom CacheD.proofs Require Import Defs." if "WindowProofs" in imports else
@@ -72,9 +73,10 @@ spec("C01_ledger", "Total weight never exceeds the configured cache weight: ever
     ("LedgerProofs", "ledger_bounded", "all_interleavings"), ("LedgerProofs", "ledger_exact_when_quiet", None),
     ("LedgerProofs", "ledger_add_within_limit", None), ("LedgerRunProofs", "ledger_trace_bounded", None),
 ])
-spec("C15_pool", "Reads never wait for the sketch; access records are counted or dropped: every interleaving of any number of readers, buffers and the consumer", ["PoolProofs"], [
+spec("C15_pool", "Reads never wait for the sketch; access records are counted or dropped: every interleaving of any number of readers, buffers and the consumer", ["PoolProofs", "PoolRunProofs"], [
     ("PoolProofs", "hits_conserved", "all_interleavings_hits_conserved"), ("PoolProofs", "added_conserved", "all_interleavings_added_conserved"),
     ("PoolProofs", "pool_bounded", None), ("PoolProofs", "reader_never_waits_for_consumer", None),
+    ("PoolRunProofs", "pool_trace_hits_conserved", None), ("PoolRunProofs", "pool_trace_bounded", None),
 ])
 spec("C10_window", "Expiry sweeps with overtaking: put_or_update and the worker's put with time-to-live split at their schedule points", ["WindowProofs"], [
     ("WindowProofs", "upsert_halves_compose", None), ("WindowProofs", "worker_halves_compose", None),
